@@ -531,3 +531,40 @@ Print Assumptions C10_model_is_source_bayesian_model_init.
 Theorem C10_model_is_source_metric_init : forall (Mo : Type) (model : Mo), SrcInits.src_metric_init Mo model = Ok model.
 Proof. exact C10Source_Init_Metric.src_metric_init_stores. Qed.
 Print Assumptions C10_model_is_source_metric_init.
+
+(* ---- SimulationTracker (core.py; Generated/SrcTracker.v; vocabulary Model/Tracker.v).  J = a JSON-native value; the object is the
+   triple of its attributes, the JSON file is None (nothing written) or Some (the object it holds).  No code of src/batchie uses
+   the class. ---- *)
+From Batchie Require Model.Tracker Generated.SrcTracker Proofs.C10Source_Tracker.
+
+Theorem C10_model_is_source_tracker_init : forall (J : Type) (o : Tracker.pytracker J) (a b c : J),
+  SrcTracker.src_tracker_init J o a b c = Ok (a, b, c).
+Proof. exact C10Source_Tracker.src_tracker_init_stores. Qed.
+Print Assumptions C10_model_is_source_tracker_init.
+
+(* save writes ONE JSON object: the three attributes under their names *)
+Theorem C10_model_is_source_tracker_save : forall (J : Type) (t : Tracker.pytracker J),
+  SrcTracker.src_tracker_save J t = Ok (Some (Tracker.tracker_dict t)).
+Proof. exact C10Source_Tracker.src_tracker_save_writes_dict. Qed.
+Print Assumptions C10_model_is_source_tracker_save.
+
+(* load(save(t)) = t, whatever the fresh instance cls.__new__ makes *)
+Theorem C10_model_is_source_tracker_save_load : forall (J : Type) (blank t : Tracker.pytracker J),
+  (dor f <- SrcTracker.src_tracker_save J t; SrcTracker.src_tracker_load J blank f) = Ok t.
+Proof. exact C10Source_Tracker.src_tracker_save_load. Qed.
+Print Assumptions C10_model_is_source_tracker_save_load.
+
+(* load binds by name (any key order); it refuses an empty file (95) and an object whose keys are not exactly the three parameters
+   (TypeError of cls( **data ), 93) *)
+Theorem C10_model_is_source_tracker_load_any_order : forall (J : Type) (blank : Tracker.pytracker J) (a b c : J),
+  SrcTracker.src_tracker_load J blank
+    (Some [(Tracker.tkey_of "seed", c); (Tracker.tkey_of "plate_ids_selected", a); (Tracker.tkey_of "losses", b)]) = Ok (a, b, c).
+Proof. exact C10Source_Tracker.src_tracker_load_any_order. Qed.
+Print Assumptions C10_model_is_source_tracker_load_any_order.
+
+Theorem C10_model_is_source_tracker_load_refuses : forall (J : Type) (blank : Tracker.pytracker J) (x : J),
+  SrcTracker.src_tracker_load J blank None = Err 95 /\
+  SrcTracker.src_tracker_load J blank (Some [(Tracker.tkey_of "seed", x); (Tracker.tkey_of "extra", x)]) = Err 93 /\
+  SrcTracker.src_tracker_load J blank (Some [(Tracker.tkey_of "seed", x); (Tracker.tkey_of "losses", x)]) = Err 93.
+Proof. exact C10Source_Tracker.src_tracker_load_refuses. Qed.
+Print Assumptions C10_model_is_source_tracker_load_refuses.
